@@ -1,6 +1,8 @@
 import DarkluaModel.C05.Lemmas
 import DarkluaModel.C05.Graph
 import DarkluaModel.C05.Dag
+import DarkluaModel.C05.Complete
+import DarkluaModel.C05.Compose
 /-!
 # C05 — a bundle behaves like the program with its modules required normally: property theorems
 
@@ -25,22 +27,6 @@ theorem callClosure_noparams (ρ : ExtOracle N) (n : Nat) (vt rt : Option Ty) (g
   rfl
 
 /-! ## The generated accessor memoises (`BuildModuleDefinitions::apply`) -/
-
-/-- the closure created by `function M.<name>(): typeof(__modImpl()) … end` in environment `locals` -/
-def accClosure (M name : String) (locals : List (String × Nat)) : Closure N := ⟨accFn M name, locals, []⟩
-
-/-- the closure created by `local function __modImpl() <body> end` -/
-def implClosure (body : Block) (locals : List (String × Nat)) : Closure N := ⟨implFn body, locals, []⟩
-
-/-- What a later state must still have for the accessor of `name` to answer from its box `tb`:
-the modules table, its `cache` table, the box stored under `name`, the boxed value. -/
-structure Boxed (locals : List (String × Nat)) (M name : String) (cM tM tC tb : Nat) (w : Val N) (σ : State N) : Prop where
-  hM : lookupAssoc M locals = some cM
-  cellM : σ.getCell cM = .tbl tM
-  cache : σ.rawGet tM (strVal "cache") = .tbl tC
-  box : σ.rawGet tC (strVal name) = .tbl tb
-  content : σ.rawGet tb (strVal "c") = w
-  plain : (σ.getTable tb).mt = none
 
 /-- **Later calls**: once the box exists, a call of the accessor (any arguments, any level ≥ 2)
 returns exactly the boxed value `w` — `nil` and `false` included — allocates one cell for `v`
@@ -255,11 +241,16 @@ def referenceProgram (mods : List (String × Src)) (entry : Src) : Block :=
 the reserved identifiers (`M`, `__modImpl`, the `__ref_…` names) and pairwise distinct module names
 other than `cache`, whenever the program with the textbook `require` returns values `vs` with trace
 `tr` at some level, the bundle returns the same values with the same trace at some level.
-What is proved towards it is `bundle_refines_partial` below plus `accessor_memoises`,
-`definition_scoped`, `inline_dag`; what is missing is the frame argument for arbitrary module
-bodies (that running a body preserves the boxes of all other modules — needs monotonicity lemmas
-for the whole of `Sem`) and the induction over the definition order that it enables. The harness
-checks this statement by execution on every generated graph instead. -/
+What is proved towards it: `bundle_prelude_establishes` (the prelude for ANY number of modules
+sets up the bundle invariant `BI`), `bundle_dag_memoises` (induction over the definition order: if
+every body satisfies the frame contract `BodyOK` relative to the modules defined before it, every
+accessor call returns the module's value, runs the body at most once per run, and keeps `BI`),
+`accessor_memoises`, `definition_scoped`, `inline_dag` (the real emission order IS dependency
+order). What is still missing: discharging `BodyOK` for arbitrary module bodies (it is proved for
+leaf bodies, `bodyOK_leaf`; the general case needs heap-monotonicity of the whole of `Sem` — the
+relation `SRel` of Shared/VisitorSound compares states with EQUAL cells and tables, so it does not
+provide it) and the simulation between the bundle's heap and the reference program's heap. The
+harness checks the statement by execution on every generated graph instead. -/
 def bundle_refines_full : Prop :=
   ∀ (N : NumOps) (ρ : ExtOracle N) (externs : List String) (M : String) (mods : List (String × Src)) (entry : Src)
     (n : Nat) (vs : List CVal) (tr : List Event),
@@ -288,6 +279,159 @@ example (call : CallFn natOps) (ρ : ExtOracle natOps) (hname : "a".toUTF8.toLis
       = .ok (.next ⟨[("__DARKLUA_BUNDLE_MODULES", 0)], []⟩) σ' :=
   ⟨_, bundle_refines_partial call ρ 0 ⟨[], []⟩ "__DARKLUA_BUNDLE_MODULES" "a" exBody _ (by decide) hname⟩
 
+/-! ## Composition over the definition order (any number of modules) -/
+
+/-- **The prelude for any number of modules**: executing the statements the bundler inserts in front
+of the entry — the modules table, then one definition per module (names pairwise distinct as
+table keys and different from `cache`) — adds only `M` to the entry's scope and establishes the
+bundle invariant `BI`: every module's accessor is stored in `M.<name>` with its own `__modImpl`
+wrapper, `M.cache` is an empty plain table, nothing is loaded. No module body runs. -/
+theorem bundle_prelude_establishes (call : CallFn N) (ρ : ExtOracle N) (k : Nat) (env : Env N) (M : String)
+    (mods : List (String × Block)) (σ : State N)
+    (hne : mods ≠ []) (hMv : M ≠ "v") (hMI : M ≠ implName)
+    (hnodup : (mods.map fun nb => bytesOf nb.1).Nodup)
+    (hcache : ∀ nb ∈ mods, bytesOf nb.1 ≠ bytesOf "cache") :
+    ∃ (infos : List ModInfo) (σ' : State N),
+      infos.map (fun m => (m.name, m.body)) = mods ∧
+      execSs call ρ (k + 1) env (prelude M mods) σ
+        = .ok (.next ⟨(M, σ.cells.length) :: env.locals, env.varargs⟩) σ' ∧
+      BI (layoutOf M env σ) infos (fun _ => none) σ' :=
+  prelude_establishes call ρ k env M mods σ hne hMv hMI hnodup hcache
+
+/-- What a call of module `m`'s accessor does at level `n + 2`, in ANY state satisfying the bundle
+invariant: it returns one value `w`, re-establishes the invariant with `m` loaded holding `w`,
+never unloads or changes an already loaded module, and — when `m` was already loaded — returns the
+stored value without running anything (trace and load map unchanged). -/
+def AccSpec (ρ : ExtOracle N) (L : Layout) (mods : List ModInfo) (m : ModInfo) (n : Nat) : Prop :=
+  ∀ (loaded : String → Option (Nat × Val N)) (args : List (Val N)) (σ : State N), BI L mods loaded σ →
+    ∃ (w : Val N) (σ' : State N) (loaded' : String → Option (Nat × Val N)),
+      callClosure ρ (n + 2) (accClosure L.M m.name (m.locals L)) args σ = .ok [w] σ' ∧
+      BI L mods loaded' σ' ∧
+      (∃ tb, loaded' m.name = some (tb, w)) ∧
+      (∀ name x, loaded name = some x → loaded' name = some x) ∧
+      (∀ tb w0, loaded m.name = some (tb, w0) → w = w0 ∧ σ'.trace = σ.trace ∧ loaded' = loaded)
+
+/-- The assumption on a module body (the frame hypotheses of `accessor_memoises`, now relative to
+the invariant of the whole bundle): GIVEN that the accessors of the modules in `deps` behave as
+`AccSpec` says (at the levels `lvl` allows), the run of `m`'s wrapper from the state in which its
+accessor calls it returns, keeps the invariant (possibly with more modules loaded, `m` itself not),
+and leaves the accessor's fresh cell and box table alone. -/
+def BodyOK (ρ : ExtOracle N) (L : Layout) (mods : List ModInfo) (lvl : ModInfo → Nat → Prop) (m : ModInfo) (n : Nat)
+    (deps : List ModInfo) : Prop :=
+  (∀ d ∈ deps, ∀ n', lvl d n' → AccSpec ρ L mods d n') →
+  ∀ (loaded : String → Option (Nat × Val N)) (σ : State N), BI L mods loaded σ → loaded m.name = none →
+    ∃ (vs : List (Val N)) (σb : State N) (loaded' : String → Option (Nat × Val N)),
+      callClosure ρ (n + 1) (implClosure m.body (m.locals L)) []
+        ((σ.allocCell .nil).2.allocTable { entries := [], mt := none }).2 = .ok vs σb ∧
+      BI L mods loaded' σb ∧ loaded' m.name = none ∧
+      (∀ name x, loaded name = some x → loaded' name = some x) ∧
+      σ.cells.length < σb.cells.length ∧ σ.tables.length < σb.tables.length ∧
+      σb.getTable σ.tables.length = { entries := [], mt := none } ∧
+      (∀ m' ∈ mods, ∀ tb w, loaded' m'.name = some (tb, w) → tb ≠ σ.tables.length)
+
+/-- **`bundle_dag_memoises`** — induction over the definition order. Let the modules `mods` be laid
+out as the prelude leaves them, in definition order (dependencies first, as `inline_dag` proves for
+the real emission order), and let every body satisfy `BodyOK` relative to the modules defined
+BEFORE it. Then every accessor satisfies `AccSpec` at every admissible level: each call returns
+the module's single value, a module body runs at most once in the whole run (a loaded module is
+answered from its box with no event), all requirers receive the same value, values of loaded
+modules never change, and the invariant — hence all of this — holds again after the call. -/
+theorem bundle_dag_memoises (ρ : ExtOracle N) (L : Layout) (mods : List ModInfo) (lvl : ModInfo → Nat → Prop)
+    (hkeys : KeysDistinct mods)
+    (hbody : ∀ (i : Nat) (m : ModInfo) (n : Nat), mods[i]? = some m → lvl m n → BodyOK ρ L mods lvl m n (mods.take i)) :
+    ∀ (i : Nat) (m : ModInfo) (n : Nat), mods[i]? = some m → lvl m n → AccSpec ρ L mods m n := by
+  intro i
+  induction i using Nat.strongRecOn with
+  | _ i ih =>
+    intro m n hmi hl loaded args σ hBI
+    have hm : m ∈ mods := List.mem_of_getElem? hmi
+    have hdeps : ∀ d ∈ mods.take i, ∀ n', lvl d n' → AccSpec ρ L mods d n' := by
+      intro d hd n' hl'
+      obtain ⟨j, hj⟩ := List.getElem?_of_mem hd
+      have hjlt : j < i := by
+        by_cases h : j < i
+        · exact h
+        · have : (mods.take i)[j]? = none := by
+            simp only [List.getElem?_take]; simp [h]
+          rw [this] at hj; cases hj
+      have hj' : mods[j]? = some d := by
+        simp only [List.getElem?_take, hjlt, if_true] at hj; exact hj
+      exact ih j hjlt d n' hj' hl'
+    cases hload : loaded m.name with
+    | some p =>
+      obtain ⟨tb, w0⟩ := p
+      have hh := bi_hit (callClosure ρ (n + 1)) ρ n L mods loaded m hm tb w0 [] σ hBI hload
+      refine ⟨w0, (σ.allocCell (.tbl tb)).2, loaded, ?_, hh.2, ⟨tb, hload⟩, fun _ _ h => h, ?_⟩
+      · simp only [accClosure, accFn]
+        rw [callClosure_noparams, hh.1]
+      · intro tb' w0' h
+        cases h
+        exact ⟨rfl, rfl, rfl⟩
+    | none =>
+      obtain ⟨vs, σb, loaded', hrun, hb, hl', hmono, fcells, ftables, fboxT, hfresh⟩ :=
+        hbody i m n hmi hl hdeps loaded σ hBI hload
+      have hmiss := bi_miss (callClosure ρ (n + 1)) ρ n L mods hkeys loaded loaded' m hm [] vs σ σb hBI hload hrun hb
+        hl' fcells ftables fboxT hfresh
+      refine ⟨first vs, _, updLoaded loaded' m.name (σ.tables.length, first vs), ?_, hmiss.2, ?_, ?_, ?_⟩
+      · simp only [accClosure, accFn]
+        rw [callClosure_noparams, hmiss.1]
+      · exact ⟨σ.tables.length, by simp [updLoaded]⟩
+      · intro name x hx
+        have hne : name ≠ m.name := by
+          intro e; rw [e, hload] at hx; cases hx
+        simp [updLoaded, hne, hmono name x hx]
+      · intro tb w0 h; cases h
+
+-- non-vacuity of `bundle_prelude_establishes` (two modules; the byte inequalities of the literal
+-- names are passed in because string literals do not reduce in the kernel)
+example (call : CallFn natOps) (ρ : ExtOracle natOps) (σ : State natOps)
+    (hab : bytesOf "a" ≠ bytesOf "b") (hac : bytesOf "a" ≠ bytesOf "cache") (hbc : bytesOf "b" ≠ bytesOf "cache") :
+    ∃ infos σ', infos.map (fun m => (m.name, m.body)) = [("a", exBody), ("b", exBody)] ∧
+      execSs call ρ 1 ⟨[], []⟩ (prelude "__DARKLUA_BUNDLE_MODULES" [("a", exBody), ("b", exBody)]) σ
+        = .ok (.next ⟨[("__DARKLUA_BUNDLE_MODULES", σ.cells.length)], []⟩) σ' ∧
+      BI (layoutOf "__DARKLUA_BUNDLE_MODULES" ⟨[], []⟩ σ) infos (fun _ => none) σ' :=
+  bundle_prelude_establishes call ρ 0 ⟨[], []⟩ "__DARKLUA_BUNDLE_MODULES" _ σ (by simp) (by decide) (by decide)
+    (by simp [hab])
+    (by
+      intro nb hnb
+      simp at hnb
+      rcases hnb with h | h <;> subst h
+      · exact hac
+      · exact hbc)
+
+/-- a module whose body is `return false` (no requires) satisfies `BodyOK` in every bundle -/
+theorem bodyOK_leaf (ρ : ExtOracle N) (L : Layout) (mods : List ModInfo) (lvl : ModInfo → Nat → Prop) (m : ModInfo)
+    (hbodyEq : m.body = .mk [] (some (.ret [.false]))) (n : Nat) (deps : List ModInfo) :
+    BodyOK ρ L mods lvl m n deps := by
+  intro _ loaded σ hBI hl
+  refine ⟨[.bool false], ((σ.allocCell .nil).2.allocTable { entries := [], mt := none }).2, loaded, ?_,
+    (hBI.allocCell _).allocTable, hl, fun _ _ h => h, ?_, ?_, ?_, ?_⟩
+  · simp [callClosure, implClosure, implFn, hbodyEq, execB, execSs, execLast, evalEs, evalE, Res.bind, bindLocals]
+  · simp [State.allocCell, State.allocTable]
+  · simp [State.allocCell, State.allocTable]
+  · simp [State.allocCell, State.allocTable, State.getTable]
+  · intro m' hm' tb w hlw
+    have sl := hBI.slots m' hm'
+    rw [hlw] at sl
+    have := sl.2.2.2.2.2
+    omega
+
+-- non-vacuity of `bundle_dag_memoises`: a one-module bundle whose module returns `false`; in every
+-- state satisfying the invariant its accessor obeys `AccSpec` at every level
+example (ρ : ExtOracle natOps) (L : Layout) (cI i a : Nat) (n : Nat) :
+    AccSpec ρ L [⟨"a", exBody, cI, i, a⟩] ⟨"a", exBody, cI, i, a⟩ n :=
+  bundle_dag_memoises ρ L [⟨"a", exBody, cI, i, a⟩] (fun _ _ => True)
+    (by intro m hm m' hm' _; simp at hm hm'; rw [hm, hm'])
+    (by
+      intro j m n hj _
+      have hm : m = ⟨"a", exBody, cI, i, a⟩ := by
+        cases j with
+        | zero => simpa using hj.symm
+        | succ j => simp at hj
+      subst hm
+      exact bodyOK_leaf ρ L _ _ _ rfl n _)
+    0 _ n rfl trivial
+
 /-! ## The inlining walk (`RequirePathProcessor`) -/
 
 section graph
@@ -299,14 +443,17 @@ the model's `fuel` error never occurs, so `inlineAll` is the total function it s
 theorem inline_total (G : Graph P) (entrySites : List (Site P)) :
     Err.fuel ∉ (inlineAll G entrySites).errors := by
   have key := inlineRequire_errs G (fun e => e ≠ .fuel) (fun n stack _ => free G stack < n)
-    (by intro q; simp) (by intro q; simp) (by intro q; simp) (by intro q; simp) (by intro q; simp) (by intro q; simp)
+    (by
+      intro n stack p _ _
+      refine ⟨?_, ?_, ?_, ?_, ?_, ?_⟩ <;> intros <;> simp)
     (by intro stack p h; omega)
     (by intro n stack p i _ _; simp)
     (by
       intro n stack p sites ret hc hidx hget s _ q _
       have := free_lt G stack p _ (indexOf?_none_not_mem p stack hidx) hget
       omega)
-  have hv := visit_errs (fun e => e ≠ .fuel) (by intro q; simp) (inlineRequire G (G.length + 1) []) true entrySites
+  have hv := visit_errs (fun e => e ≠ .fuel) (inlineRequire G (G.length + 1) []) true entrySites
+    (by intros; simp)
     (fun s _ q _ _ => key (G.length + 1) [] q (by rw [free_nil]; omega)) St.empty (by intro e he; simp [St.empty] at he)
   intro hmem
   exact hv _ hmem rfl
@@ -320,8 +467,9 @@ theorem inline_cyclic_sound (G : Graph P) (entrySites : List (Site P)) (ps : Lis
   let R := Reach G entrySites
   have key := inlineRequire_errs G (fun e => ∀ ps, e = .cyclic ps → GoodCycle G R ps)
     (fun _ stack p => IsPath G (stack ++ [p]) ∧ ∀ x ∈ stack ++ [p], R x)
-    (by intro q ps h; cases h) (by intro q ps h; cases h) (by intro q ps h; cases h) (by intro q ps h; cases h)
-    (by intro q ps h; cases h) (by intro q ps h; cases h)
+    (by
+      intro n stack p _ _
+      refine ⟨?_, ?_, ?_, ?_, ?_, ?_⟩ <;> intros <;> rename_i h <;> cases h)
     (by intro stack p _ ps h; cases h)
     (by
       intro n stack p i hc hidx ps' hps
@@ -352,8 +500,9 @@ theorem inline_cyclic_sound (G : Graph P) (entrySites : List (Site P)) (ps : Lis
       · have : x = q := by simpa using hx
         subst this
         exact Reach.step (hc.2 p (by simp)) he)
-  have hv := visit_errs (fun e => ∀ ps, e = .cyclic ps → GoodCycle G R ps) (by intro q ps h; cases h)
+  have hv := visit_errs (fun e => ∀ ps, e = .cyclic ps → GoodCycle G R ps)
     (inlineRequire G (G.length + 1) []) true entrySites
+    (by intro s _ q _ _ ps h; cases h)
     (fun s hs q hq hsh => key (G.length + 1) [] q
       ⟨trivial, by
         intro x hx
@@ -365,6 +514,64 @@ theorem inline_cyclic_sound (G : Graph P) (entrySites : List (Site P)) (ps : Lis
         · simp [hb] at hsh⟩)
     St.empty (by intro e he; simp [St.empty] at he)
   exact hv _ h ps rfl
+
+/-- the files reachable from the entry are all present, parse, and return exactly one value (or are
+data files), and every require call the walk acts on resolves to a file or is excluded -/
+structure WellFormed (G : Graph P) (entrySites : List (Site P)) : Prop where
+  entry : ∀ s ∈ entrySites, s.shadowed = false → ∀ q, s.target ≠ .notFound q
+  node : ∀ p, Reach G entrySites p →
+    G.get p = some .data ∨ ∃ sites, G.get p = some (.lua sites .one) ∧ ∀ s ∈ sites, ∀ q, s.target ≠ .notFound q
+
+/-- no cycle of requires among the files reachable from the entry -/
+def Acyclic (G : Graph P) (entrySites : List (Site P)) : Prop :=
+  ¬ ∃ ps, GoodCycle G (Reach G entrySites) ps
+
+/-- on a well-formed graph the only errors the walk can collect are cycle reports -/
+theorem inline_wellformed_errors_cyclic (G : Graph P) (entrySites : List (Site P))
+    (hwf : WellFormed G entrySites) :
+    ∀ e ∈ (inlineAll G entrySites).errors, ∃ ps, e = .cyclic ps := by
+  have key := inlineRequire_errs G (fun e => ∃ ps, e = .cyclic ps)
+    (fun n stack p => Reach G entrySites p ∧ free G stack < n)
+    (by
+      intro n stack p hc _
+      rcases hwf.node p hc.1 with hd | ⟨sites, hl, hs⟩
+      · refine ⟨?_, ?_, ?_, ?_, ?_, ?_⟩
+        · intro h; rw [hd] at h; cases h
+        · intro h; rw [hd] at h; cases h
+        · intro h; rw [hd] at h; cases h
+        · intro sites' h; rw [hd] at h; cases h
+        · intro sites' h; rw [hd] at h; cases h
+        · intro sites' ret h; rw [hd] at h; cases h
+      · refine ⟨?_, ?_, ?_, ?_, ?_, ?_⟩
+        · intro h; rw [hl] at h; cases h
+        · intro h; rw [hl] at h; cases h
+        · intro h; rw [hl] at h; cases h
+        · intro sites' h; rw [hl] at h; cases h
+        · intro sites' h; rw [hl] at h; cases h
+        · intro sites' ret h s hs' q hq
+          rw [hl] at h; cases h
+          exact absurd hq (hs s hs' q))
+    (by intro stack p h; omega)
+    (by intro n stack p i _ _; exact ⟨_, rfl⟩)
+    (by
+      intro n stack p sites ret hc hidx hget s hs q hq
+      have := free_lt G stack p _ (indexOf?_none_not_mem p stack hidx) hget
+      exact ⟨Reach.step hc.1 ⟨sites, ret, hget, s, hs, hq⟩, by omega⟩)
+  have hv := visit_errs (fun e => ∃ ps, e = .cyclic ps) (inlineRequire G (G.length + 1) []) true entrySites
+    (by
+      intro s hs q hq hsh
+      have hsf : s.shadowed = false := by
+        cases hb : s.shadowed
+        · rfl
+        · simp [hb] at hsh
+      exact absurd hq (hwf.entry s hs hsf q))
+    (fun s hs q hq hsh => key (G.length + 1) [] q
+      ⟨Reach.root ⟨s, hs, by
+        cases hb : s.shadowed
+        · rfl
+        · simp [hb] at hsh, hq⟩, by rw [free_nil]; omega⟩)
+    St.empty (by intro e he; simp [St.empty] at he)
+  exact hv
 
 /-- **One definition per file, in dependency order.** If the walk collects no error (the bundler
 succeeds) then, whatever the spellings and however often a file is required (diamonds):
@@ -423,6 +630,65 @@ theorem inline_dag (G : Graph P) (entrySites : List (Site P))
     · rw [hskip] at h; cases h
     · have := huniq j j' q hj hj'
       omega
+
+/-- **Acyclic and well-formed ⇒ the bundler succeeds** (converse of `inline_dag`): if every file
+reachable from the entry is present, parses and returns exactly one value, every acted-on require
+resolves (or is excluded), and no cycle of requires is reachable, the walk collects no error. -/
+theorem inline_wellformed_acyclic_ok (G : Graph P) (entrySites : List (Site P))
+    (hwf : WellFormed G entrySites) (hac : Acyclic G entrySites) :
+    (inlineAll G entrySites).errors = [] := by
+  cases herr : (inlineAll G entrySites).errors with
+  | nil => rfl
+  | cons e rest =>
+    exfalso
+    have hmem : e ∈ (inlineAll G entrySites).errors := by rw [herr]; exact List.mem_cons_self
+    obtain ⟨ps, hps⟩ := inline_wellformed_errors_cyclic G entrySites hwf e hmem
+    subst hps
+    exact hac ⟨ps, inline_cyclic_sound G entrySites ps hmem⟩
+
+theorem path_rank (G : Graph P) (fin : List P) (rk : P → Nat)
+    (hrk : ∀ p, p ∈ fin → ∀ q, Edge G p q → q ∈ fin ∧ rk q < rk p) :
+    ∀ (l : List P) (a z : P), IsPath G (a :: (l ++ [z])) → a ∈ fin → rk z < rk a := by
+  intro l
+  induction l with
+  | nil => intro a z hp ha; exact (hrk a ha z hp.1).2
+  | cons b l ih =>
+    intro a z hp ha
+    have hb := hrk a ha b hp.1
+    have := ih b z hp.2 hb.1
+    omega
+
+/-- **Cycle detection is complete**, whatever else is wrong with the graph (missing files, syntax
+errors, wrong return shapes, bad extensions, excluded or shadowed requires): if some cycle of
+requires is reachable from the entry, the walk collects at least one `cyclic` error. -/
+theorem inline_cyclic_complete (G : Graph P) (entrySites : List (Site P))
+    (hcyc : ∃ ps, GoodCycle G (Reach G entrySites) ps) :
+    ∃ ps, Err.cyclic ps ∈ (inlineAll G entrySites).errors := by
+  have hspec := visit_specC G [] (inlineRequire G (G.length + 1) []) true entrySites
+    (inlineRequire_errPre G (G.length + 1) [])
+    (fun s _ q _ => inlineRequire_specC G (G.length + 1) [] q (by rw [free_nil]; omega))
+    St.empty (Or.inr ⟨⟨fun _ => 0, by intro p hp; simp [St.finished, St.empty] at hp⟩, by intro x hx; cases hx⟩)
+  rcases hspec with h | ⟨⟨rk, hrk⟩, _, _, hdone⟩
+  · exact h
+  · exfalso
+    obtain ⟨ps, hpath, ⟨c, mid, hps⟩, hreach⟩ := hcyc
+    have hfin : ∀ p, Reach G entrySites p →
+        p ∈ (visit (inlineRequire G (G.length + 1) []) true entrySites St.empty).2.finished := by
+      intro p hp
+      induction hp with
+      | root hq =>
+        obtain ⟨s, hs, hsh, ht⟩ := hq
+        exact hdone s hs _ (by simp [activeTarget, hsh, ht])
+      | step _ he ih => exact (hrk _ ih _ he).1
+    subst hps
+    have hc := hfin c (hreach c (by simp))
+    have := path_rank G _ rk hrk mid c c hpath hc
+    omega
+
+/-- **`cyclic` is reported iff a cycle is reachable from the entry** (on every finite graph). -/
+theorem inline_cyclic_iff (G : Graph P) (entrySites : List (Site P)) :
+    (∃ ps, Err.cyclic ps ∈ (inlineAll G entrySites).errors) ↔ ∃ ps, GoodCycle G (Reach G entrySites) ps :=
+  ⟨fun ⟨ps, h⟩ => ⟨ps, inline_cyclic_sound G entrySites ps h⟩, inline_cyclic_complete G entrySites⟩
 
 end graph
 
